@@ -26,3 +26,10 @@ Fixpoint doc_get (config : doc) (k : string) : MPa dict :=                      
   match config with [] => raise EKey | (k', d) :: r => if String.eqb k k' then ret d else doc_get r k end.
 Definition dict_copy (d : dict) : dict := d.                                     (* dict(d) *)
 Definition dict_merge (a b : dict) : dict := merge a b.                          (* {**a, **b} *)
+
+(* ---- PGMCompiler.close(): what it does to the file system, in order: (true, d) = mkdir -p d ; (false, p) = open p for writing ---- *)
+Record cl_cfg := { cl_filename : string; cl_export_dir : string }.
+Definition MCl : Type -> Type := @M (list (bool * string)).
+Definition cl_mkdirs (d : string) : MCl unit := fun s => (Ret tt, s ++ [(true, d)])%list.
+Definition cl_open (p : string) : MCl unit := fun s => (Ret tt, s ++ [(false, p)])%list.
+Definition pjoin (d f : string) : string := (d ++ "/" ++ f)%string.            (* d / f *)
